@@ -801,11 +801,12 @@ type Layout struct {
 	// Garbage != 0 fills the unused bytes of the 4-byte value slot of embedded values shorter
 	// than four bytes with non-zero bytes (TIFF 6.0 leaves them undefined; values are
 	// left-justified in the slot in either byte order).
-	Garbage  uint64
-	Root     *Dir
-	RootName string
-	Blocks   []*block
-	LeadPad  int // padding between the TIFF header and the first block (first-IFD offset = 8+LeadPad when the first block is the root)
+	Garbage   uint64
+	Root      *Dir
+	RootName  string
+	Blocks    []*block
+	LeadBytes []byte // written into the padding after the TIFF header (as much as fits)
+	LeadPad   int    // padding between the TIFF header and the first block (first-IFD offset = 8+LeadPad when the first block is the root)
 }
 
 type block struct {
@@ -959,6 +960,9 @@ func (ly *Layout) Encode(big bool) *Encoded {
 		copy(out, "MM\x00*")
 	} else {
 		copy(out, "II*\x00")
+	}
+	if n := len(ly.LeadBytes); n > 0 && n <= ly.LeadPad {
+		copy(out[8:], ly.LeadBytes)
 	}
 	first := dirOff[ly.Root]
 	bo.PutUint32(out[4:], uint32(first))
@@ -1182,6 +1186,31 @@ type Alt struct {
 	AsLong  uint32 // bit per field, see altFields
 	ISO2    uint16 // != 0: ISO becomes SHORT x 2 {iso, ISO2}
 	Garbage uint64
+	// degenerate-but-parseable values (drawn by DrawAltDegenerate from a lane of their own):
+	ShortText uint16 // bit per field of shortTextFields: the text is cut to 0..3 characters, so the value moves into the 4-byte slot
+	ShortSeed uint64
+	LeadCR2   bool // the padding after the TIFF header starts with Canon's CR2 magic ("CR", 2, 0), as in a CR2 file
+}
+
+var shortTextFields = []string{"ModifyDate", "DateOrig", "DateDig", "Offset", "OffsetOrig", "OffsetDig", "GPSDate", "SubSec", "SubSecOrig", "SubSecDig"}
+
+// DrawAltDegenerate adds degenerate values to a: date, offset and sub-second texts of at most
+// three characters, which are stored in the 4-byte slot like any short ASCII value. A reader has
+// nothing sensible to report for them; what byte-order transparency (C07: "every field type
+// including values embedded in the 4-byte offset slot") requires is that it reports the same for
+// II and MM. (A RATIONAL with count 0 was tried as well and dropped: it has no value at all, the
+// library reads whatever follows, and no property says what that should be.)
+func DrawAltDegenerate(l *core.Lane, a *Alt) {
+	switch l.Intn(5) {
+	case 1:
+		a.ShortText = uint16(1 << uint(l.Intn(len(shortTextFields))))
+		a.ShortSeed = l.U64()
+	case 2:
+		a.ShortText = uint16(l.Intn(1 << len(shortTextFields)))
+		a.ShortSeed = l.U64()
+	case 3:
+		a.LeadCR2 = true
+	}
 }
 
 var altFields = []string{"Orientation", "Program", "Metering", "Flash", "Mode", "Focal35", "PixelX", "PixelY", "ISO", "Width", "Height"}
@@ -1210,12 +1239,33 @@ func (ly *Layout) ApplyAlt(a Alt) {
 		return
 	}
 	ly.Garbage = a.Garbage
+	if a.LeadCR2 {
+		if ly.LeadPad < 8 {
+			ly.LeadPad = 8
+		}
+		ly.LeadBytes = []byte("CR\x02\x00")
+	}
 	for _, b := range ly.Blocks {
 		if b.dir == nil {
 			continue
 		}
 		for _, e := range b.dir.Entries {
 			if e.Child != nil || e.Field == "" {
+				continue
+			}
+			if e.Type == TASCII && a.ShortText != 0 {
+				for i, f := range shortTextFields {
+					if f == e.Field && a.ShortText&(1<<uint(i)) != 0 {
+						r := core.NewSplitMix(a.ShortSeed ^ uint64(i)*0x9e3779b97f4a7c15)
+						n := r.Intn(4)
+						txt := make([]byte, 0, 4)
+						for k := 0; k < n; k++ {
+							txt = append(txt, "0123456789:+- "[r.Intn(14)])
+						}
+						e.Bytes = append(txt, 0)
+						e.Count = uint32(len(e.Bytes))
+					}
+				}
 				continue
 			}
 			if e.Field == "ISO" && a.ISO2 != 0 && e.Type == TShort && e.Count == 1 {
